@@ -26,6 +26,8 @@ def selftest():
     # hashlib's PBKDF2 (used only for the very large iteration counts) against the pure-Python reference
     import hashlib
 
+    for fn, data in (("sha1", b"abc"), ("sha256", b""), ("sha512", b"x" * 300), ("ripemd160", b"message digest")):
+        assert hashlib.new(fn, data).digest() == hashes.FUNCS[fn][0](data), "hashlib %s disagrees with the reference" % fn
     for fn in ("sha1", "sha256", "sha512"):
         for pw, salt, rd, ol in ((b"", b"", 1, 20), (b"password", b"salt", 3, 65), (b"p" * 200, b"s" * 100, 7, 33)):
             assert hashlib.pbkdf2_hmac(fn, pw, salt, rd, ol) == hashes.pbkdf2(fn, pw, salt, rd, ol), "hashlib PBKDF2 disagrees with the reference"
@@ -44,6 +46,18 @@ def cases(ctx):
         m = gen.rbytes(r, L).hex()
         for fn in FN:
             yield {"k": "hash", "fn": fn, "msg": m}
+    # very long messages, generated inside the driver (byte i = 31*i+7 mod 256); reference: hashlib (cross-checked against the
+    # pure-Python reference in the self-test). 2^29 bytes and more make the SHA bit-length field exceed 32 bits.
+    bigs = [(1 << 16) + 1, (1 << 20) + 3] + ([(1 << 24) + 5, (1 << 29) + 1, (1 << 29) - 1] if t else [])
+    bi = 0
+    for L in bigs:
+        for fn in FN:
+            bi += 1
+            if bi % N == S:
+                yield {"k": "bighash", "fn": fn, "len": L}
+        bi += 1
+        if bi % N == S:
+            yield {"k": "bighmac", "fn": FN[bi % len(FN)], "len": min(L, (1 << 24) + 5), "key": gen.rbytes(r, r.choice([16, 64, 65, 200])).hex()}
     if S == 0:
         ctx.exhaustive.append("every message length 0..%d for each of the six hashes" % maxlen)
     klens = [0, 1, 63, 64, 65, 127, 128, 129, 300]
@@ -80,6 +94,19 @@ def cases(ctx):
                 if k % N != S:
                     continue
                 yield {"k": "pbkdf2", "fn": fn, "password": gen.rbytes(r, pl).hex(), "salt": gen.rbytes(r, sl).hex(), "rounds": r.choice([1, 2, 3]), "len": r.choice([20, 32, 33, 64, 65])}
+    # passwords / salts with zero bytes at the end or the start, all-zero, on both sides of the block size (HMAC zero-pads SHORT keys, so a
+    # trailing zero is insignificant only below the block size)
+    for fn in ("sha1", "sha256", "sha512"):
+        bs = 128 if fn == "sha512" else 64
+        for pl in (1, 2, bs - 1, bs, bs + 1, bs + 2, 2 * bs, 2 * bs + 1, 200):
+            for shape in ("trail0", "lead0", "zeros", "trail00"):
+                k += 1
+                if k % N != S:
+                    continue
+                body = gen.rbytes(r, pl)
+                pw = {"trail0": body[:-1] + b"\x00", "lead0": b"\x00" + body[1:], "zeros": bytes(pl), "trail00": (body[:-2] + b"\x00\x00") if pl >= 2 else b"\x00"}[shape]
+                salt = gen.rbytes(r, 7) + (b"\x00" if shape != "lead0" else b"")
+                yield {"k": "pbkdf2", "fn": fn, "password": pw.hex(), "salt": salt.hex(), "rounds": r.choice([1, 2]), "len": r.choice([20, 33, 64]), "shape": shape}
     # random-salt mode: the library draws the salt and reports it; the reference recomputes with the reported salt
     for i in range(24 if t else 6):
         if i % N == S % 24 or t:
@@ -134,6 +161,39 @@ def judge(ctx, case):
         exp = hashes.FUNCS[case["fn"]][0](m).hex()
         if r.get("ok", {}).get("bytes") != exp or not r["ok"]["hex_eq"]:
             ctx.viol("hash %s differs from the reference" % case["fn"], {"len": len(m), "got": str(r.get("ok"))[:200], "exp": exp})
+    elif k in ("bighash", "bighmac"):
+        import hashlib
+        import hmac as pyhmac
+
+        n = case["len"]
+        ctx.nontrivial()
+        ctx.hit("long_message")
+        if n >= 1 << 29:
+            ctx.hit("bit_length_above_2^32")
+        m = (bytes((31 * i + 7) & 0xFF for i in range(256)) * (n // 256 + 1))[:n]
+        fn = case["fn"]
+
+        def hl(name, data):
+            return hashlib.new(name, data).digest()
+
+        if k == "bighash":
+            exp = {"sha1": lambda: hl("sha1", m), "sha256": lambda: hl("sha256", m), "sha512": lambda: hl("sha512", m), "ripemd160": lambda: hl("ripemd160", m), "sha256d": lambda: hl("sha256", hl("sha256", m)), "hash160": lambda: hl("ripemd160", hl("sha256", m))}[fn]().hex()
+            r = ctx.call({"op": "hash", "fn": fn, "msg_gen": {"len": n}, "guard": 4 * n + (64 << 20)}, watchdog=900)
+            ctx.ev()
+            if r.get("ok", {}).get("bytes") != exp:
+                ctx.viol("hash %s of a very long message differs from the reference (%s)" % (fn, "bit length above 2^32" if n >= 1 << 29 else "length below 2^29"), {"len": n, "got": str(r.get("ok", r))[:200], "exp": exp})
+        else:
+            key = bytes.fromhex(case["key"])
+            base = {"sha1": "sha1", "sha256": "sha256", "sha512": "sha512", "ripemd160": "ripemd160"}.get(fn)
+            if base is None:
+                return
+            exp = pyhmac.new(key, m, base).digest().hex()
+            r = ctx.call({"op": "hmac", "fn": fn, "key": case["key"], "msg_gen": {"len": n}, "guard": 4 * n + (64 << 20)}, watchdog=900)
+            ctx.ev()
+            got = r.get("ok")
+            got = got.get("bytes") if isinstance(got, dict) else got
+            if got != exp:
+                ctx.viol("HMAC-%s of a very long message differs from the reference" % fn, {"len": n, "got": str(r.get("ok", r))[:200], "exp": exp})
     elif k == "hmac":
         m, key = bytes.fromhex(case["msg"]), bytes.fromhex(case["key"])
         ctx.nontrivial()
@@ -146,6 +206,8 @@ def judge(ctx, case):
             ctx.viol("HMAC-%s differs from the reference (key %s block size)" % (case["fn"], "shorter than" if len(key) < bs else "equal to" if len(key) == bs else "longer than"), {"got": str(r.get("ok", r.get("panic")))[:200], "exp": exp})
     elif k == "pbkdf2":
         ctx.nontrivial()
+        if case.get("shape"):
+            ctx.hit("pbkdf2_zero_bytes_in_password")
         req = {"op": "pbkdf2", "fn": case["fn"], "password": case["password"], "rounds": case["rounds"], "len": case["len"]}
         if case["salt"] is not None:
             req["salt"] = case["salt"]
